@@ -15,6 +15,7 @@ import json
 import os
 import random
 import re
+import time
 
 from ..core import Machinery, chunks, run_workers
 
@@ -279,10 +280,29 @@ def execute(ctx, insts, events, nproc):
     return out
 
 
-def _api(ev):
-    base = {"class": "Writer/Reader", "string": "str(Writer)/Reader(string)", "saveload": "BayesianNetwork.save/load",
-            "class_nj2": "Writer/Reader(n_jobs=2)", "saveload_nj2": "BayesianNetwork.save/load(n_jobs=2)"}[ev["route"]]
-    return f"{ev['fmt']}:{base}"
+def _api(fmt, clauses):
+    side = "Writer" if any(c.startswith("write.") or c.startswith("saveload.") for c in clauses) else \
+        "Reader" if any(c.startswith("read.") for c in clauses) else ""
+    return {"BIF": "BIF", "XMLBIF": "XMLBIF", "UAI": "UAI", "NET": "NET"}[fmt] + side
+
+
+def _features(ev, inst):
+    """input features a finding can be keyed on (all derived from the instance descriptor, not from the outcome)"""
+    card = {v: len(s) for v, s in inst["states"].items()}
+    size = 0
+    for f in inst["fams"]:
+        n = 1
+        for v in f["scope"]:
+            n *= card[v]
+        size = max(size, n)
+    small = any(e["ip"] == 0 and any(e["dg"]) and not any(e["dg"][:4]) for e in inst["vals"])      # 0 < x < 1e-4: printed with an exponent
+    deg = {v: 0 for v in inst["nodes"]}
+    for f in inst["fams"]:
+        for v in f["scope"]:
+            deg[v] += len(f["scope"]) - 1
+    return {"route": ev["route"], "names": ev["names"], "kind": inst["kind"], "exponent_values": small, "cells_gt_1000": size > 1000,
+            "max_parents": min(2, max(len(f["scope"]) - 1 for f in inst["fams"])) if inst["kind"] == "BN" else 0,
+            "isolated_node": any(d == 0 for d in deg.values()) and len(inst["nodes"]) > 1}
 
 
 def report(ctx, insts, events, results, verdicts):
@@ -300,8 +320,8 @@ def report(ctx, insts, events, results, verdicts):
             ctx.traces += 1
             continue
         case_ev = {k: ev[k] for k in ("inst", "ord", "model", "fmt", "route", "hs", "names", "cseed")}
-        ctx.violation({"api": _api(ev), "clause": "+".join(sorted(clauses)),
-                       "features": {"names": ev["names"], "stress": inst["stress"]},
+        ctx.violation({"api": _api(ev["fmt"], clauses), "clause": "+".join(sorted(clauses)),
+                       "features": _features(ev, inst), "stress": inst["stress"],
                        "case": {"inst": inst, "event": case_ev},
                        "observed": {k: res.get(k) for k in ("werr", "lexerr", "rerr", "aliens", "text")},
                        "expected": "Trace_C09: doc = Write(fmt, m'), read model = Read(fmt, doc) ~ Canon(fmt, m)"})
@@ -343,7 +363,14 @@ def run(ctx):
     ctx.exhaustive = True
     events = plan(ctx, insts, cases, rng)
     ctx.sample({"kind": "case", "inst": cases[0]["inst"], "ord": cases[0]["ord"], "scopes": [f["scope"] for f in cases[0]["model"]["fams"]]})
+    t0 = time.time()
     results = execute(ctx, insts, events, 8 if ctx.thorough else 6)
+    ctx.extra["replay_wall_s"] = round(time.time() - t0, 1)
+    slow = {}
+    for ev in events:
+        k = f"{ev['fmt']}/{ev['route']}" + ("/big" if ev["heavy"] else "")
+        slow[k] = round(slow.get(k, 0) + results[ev["tid"]].get("dt", 0), 1)
+    ctx.extra["replay_cpu_s_by_route"] = slow
     traces = [to_trace(ev, results[ev["tid"]]) for ev in events]
     verdicts = {}
     nb = max(1, (len(traces) + 1499) // 1500)
@@ -371,7 +398,8 @@ def replay(ctx, rec):
     if res.get("same_text") is False:
         fails = fails + ["saveload.text_differs_from_writer"]
     if fails:
-        return {"api": _api(ev), "clause": "+".join(sorted(fails)), "observed": {k: res.get(k) for k in ("werr", "lexerr", "rerr", "aliens")}}
+        return {"api": _api(ev["fmt"], fails), "clause": "+".join(sorted(fails)),
+                "observed": {k: res.get(k) for k in ("werr", "lexerr", "rerr", "aliens")}}
     return None
 
 
@@ -899,6 +927,7 @@ def roundtrips(payload):
             if not t:
                 aliens.append(str(w))
             return t
+        t0 = time.time()
         conc = Conc(inst, ev["names"], ev["cseed"])
         model = _build(ev["model"], conc, vf)
         path = os.path.join(payload["tmp"], "e%d_%d.%s" % (ev["tid"], os.getpid(), EXT[fmt]))
@@ -931,6 +960,7 @@ def roundtrips(payload):
                 for k in ("rnodes", "redges", "rfams"):
                     res.pop(k, None)
         res["aliens"] = aliens[:8]
+        res["dt"] = round(time.time() - t0, 3)
         try:
             os.remove(path)
         except OSError:
